@@ -33,7 +33,10 @@ CHECKS.update({
     "C15": dict(
         text="Product-exhaustive: every register size 1-4 (5), every outcome, every H-subset preparation, every hardware output list up to "
              "length 2 (3) as int and as string, and every small perturbation of probability vectors pushed through a one-line backend; "
-             "all views (by_int, by_str, readout as_int/as_str, relative frequencies) compared with an independent little-endian oracle.",
+             "all views (by_int, by_str, readout as_int/as_str, relative frequencies) compared with an independent little-endian oracle. "
+             "Also boundary outcomes and H-masks on registers of 5-10 (12) qubits, gate lists written from the highest qubit down, and one job of "
+             "the default backend executed three times plus a second job of the same backend object (every result obtained so far is judged again "
+             "after each execution).",
         note="register size <= 4 (quick) / 5 (thorough); perturbations below CUTOFF_FAIL; numpy seeded",
         technique="product-exhaustive enumeration of outcomes/views on the real result classes against an independent bit-order oracle",
         ref="5/C15",
@@ -77,7 +80,8 @@ CHECKS.update({
              "qubit and angle parameters, alias of a strided alias, let with and without override, parallel block in both branch orders, "
              "subcircuit block, whole section in a loop), two subcircuits per program; the emulator's state vector and probabilities are "
              "compared with an independent dense simulator (own embedding of gate matrices with generic, pairwise distinct entries) and with "
-             "a chained differential oracle from the emulator's own intermediate state.",
+             "a chained differential oracle from the emulator's own intermediate state. Wider registers: one gate on every ordered qubit tuple "
+             "of 4-6 (5-7) qubits under every embedding, two gates on 4 (5) qubits under plain / alias / macro.",
         note="gate matrices are shared fixtures (mc/gates.py); the reference embedding/ordering (mc/ref/sim.py) and alias arithmetic are independent; 1e-9 tolerance",
         technique="product-exhaustive enumeration of gate sequences x qubit tuples x embeddings; emulator vs independent dense simulator",
         ref="5/C03",
@@ -107,7 +111,10 @@ CHECKS.update({
              "every single-character edit of 25 seed programs, through parse / header parse / autoload parse / emulation under a deterministic "
              "fuel budget: only JaqalError (JaqalParseError with a position for syntax errors) or ImportError may escape, nothing may hang. "
              "Space 2: state graph over call histories (13-19 calls, length <= 2 each in a fresh interpreter, length <= 3 (4) back to back in "
-             "one process): every call's outcome must equal its fresh-interpreter baseline wherever it occurs.",
+             "one process; calls include errors raised inside grammar actions, a header-only parse followed by the full parse of the same text, "
+             "and emulations that share one gate table object over different alias slices): every call's outcome must equal its "
+             "fresh-interpreter baseline wherever it occurs. Space 3: 7 frames x 12 runs of 64-300 layout / punctuation characters "
+             "(unterminated comments, text before an illegal character), each parsed in a child process under a 60 s wall-clock limit.",
         note="emulation only for registers <= 5 qubits; exact positions are C02's; importlib.util deliberately not pre-imported in the history driver",
         technique="exhaustive enumeration of short character strings + explicit-state exploration of call histories against fresh-process baselines",
         ref="5/C16",
@@ -164,7 +171,9 @@ CHECKS.update({
              "recogniser), and each prefix p, p.t for every token t, and p.close(p) is run through the real parser: accept <=> derivable, the "
              "S-expression equals the model's tree, rejection raises JaqalParseError at a token at or after the first offending one (or end of "
              "input). Plus every single-token deletion/duplication/swap/replacement of 40 pool programs, and every rendering of them with <= 2 (3) "
-             "layout deviations (separator choice, blanks, //, /* */ comments incl. multi-line and adjacent).",
+             "layout deviations (separator choice, blanks, //, /* */ comments incl. multi-line and adjacent); comment bodies incl. runs of * and /; "
+             "literal variants in every literal position; one comment (bodies incl. \\r \\v \\f FS GS RS NEL LS PS) in every gap in front of the first "
+             "offending token of every structural near miss (error positions must not move); a header-only parse before the full parse of each pool program.",
         note="branch/case, BININT, import-as, ',' and non-positive register sizes are outside the alphabet; end of input is always an acceptable error position",
         technique="explicit-state search over reference-parser configurations (token strings to a depth bound) replayed on the real parser; near-miss and layout enumeration",
         ref="5/C02",
